@@ -247,11 +247,16 @@ class Online:
 
     def run(self, nsessions=None, observe_pairs=30, nvec=8, regen=0):
         rng, ch, cc = self.rng, self.ch, self.cc
+        self.zones(1)  # fixes which directory owns the outer periods
         nsessions = nsessions or rng.choice([1, 1, 2, 2, 3])
         ends = {}
         for si in range(nsessions):
             d = rng.randint(1, cc.nd)
-            lo, hi = rng.choice(self.zones(d))
+            if cc.nd == 2 and nsessions >= 3:
+                # make the periods of the two directories interleave: outer, inner, outer, ...
+                d = self._outer if si % 2 == 0 else 3 - self._outer
+            zs = self.zones(d)
+            lo, hi = zs[(si // 2) % len(zs)] if (cc.nd == 2 and nsessions >= 3) else rng.choice(zs)
             if si == 0 or d not in ends or not (lo <= ends[d] <= hi):
                 start = rng.choice([lo, lo, lo + rng.randint(0, max(0, min(hi - lo, cc.bound[1] - cc.bound[0] + 2)))])
             else:
